@@ -1449,6 +1449,203 @@ def check_adapt_omega(ck, view, inst):
 
 
 # -------------------------------------------------------------------------------------------------
+# which local operation a transfer event of the cycle reaches
+# -------------------------------------------------------------------------------------------------
+
+TRANSFER_BASE = {"rest": "rest", "rest_send": "rest", "prol": "prol", "prol_recv": "prol", "trunc": "trunc", "trunc_send": "trunc"}
+TRANSFER_CLS_RE = re.compile(r"^FEAT::(LAFEM|Global)::Transfer<")
+
+
+def check_transfer_chain(ck, tier, used_methods):
+    """E1.transfer-method-chain: the transfer methods the cycle calls (rest / rest_send / prol / prol_recv) reach the local
+    operation of the same kind in every branch of every transfer class a multigrid can be built on: a wrapper
+    (Global::Transfer) calls, on its wrapped transfer object, only the method of the same kind (rest -> rest, rest_send ->
+    rest, prol / prol_recv -> prol) and does so on every normal path; the local operator (LAFEM::Transfer) applies the
+    matrix member named for that kind"""
+    rule = "E1.transfer-method-chain"
+    extra = ("-DC09_THOROUGH",) if tier == "thorough" else ()
+    facts = featlib.extract("tu/c09_global_transfer.cpp", files=featlib.repo_path("kernel/(global|lafem)/transfer.hpp"), extra=extra)
+    ck.tu(facts)
+    for e in (facts.errors_in_repo() + facts.errors_outside_repo())[:3]:
+        ck.incomplete(rule, "driver TU tu/c09_global_transfer.cpp does not compile: %s:%d %s" % (e["file"], e["line"], e["msg"][:200]))
+    inl = norm_c08.Inliner(facts)
+    classes = sorted({f.cls for f in facts.functions if f.tk != "pattern" and TRANSFER_CLS_RE.match(f.cls)})
+    if not classes:
+        ck.incomplete(rule, "no instantiation of LAFEM::Transfer / Global::Transfer found")
+    for cls in classes:
+        short = re.sub(r"FEAT::|, FEAT::LAFEM::VectorMirror<[^>]*>", "", re.sub(r"unsigned long", "u64", cls))
+        fns = {}
+        for f in facts.functions:
+            if f.tk != "pattern" and f.cls == cls:
+                fns.setdefault(f.name, []).append(f)
+        for m in sorted(used_methods):
+            if m not in TRANSFER_BASE:
+                continue
+            cand = fns.get(m, [])
+            if len(cand) != 1:
+                ck.incomplete(rule, "%s::%s: %d definitions" % (short, m, len(cand)))
+                continue
+            f = inl.inline(cand[0], want=lambda call, cal: cal.name not in TRANSFER_BASE)
+            if not (f.cfg and f.cfg.normal_exit_preds()):
+                continue        # not callable on this class (XABORTM stub of the local operator)
+            view = FnView(f)
+            base = TRANSFER_BASE[m]
+            key = "%s::%s" % (short, m)
+            stm = [view.byid[e] for b in view.cfg.blocks.values() for e in b["el"] if e in view.byid]
+            deleg = [n for n in stm if n.get("k") == "MCall" and TRANSFER_CLS_RE.match(n.get("ccls") or "") and n.get("n") in TRANSFER_BASE
+                     and not (n.get("obj") is None or strip(n["obj"]).get("k") == "This")]
+            own = [n for n in stm if n.get("k") == "MCall" and n.get("n") in TRANSFER_BASE and (n.get("obj") is None or strip(n["obj"]).get("k") == "This")]
+            applies = [n for n in stm if n.get("k") == "MCall" and n.get("n") in ("apply", "apply_transposed") and mgmodel.is_this_member(view.value(n.get("obj") or {}))]
+            if own:
+                ck.incomplete(rule, "%s: forwards to its own method %s(), which is not followed" % (key, own[0].get("n")))
+                continue
+            if deleg:
+                wrong = [n for n in deleg if n.get("n") != base]
+                ids = {n["i"] for n in deleg if n.get("n") == base}
+                esc = view.flow_from(None, stop=ids)[1] if ids else True
+                problems = ["`%s` (line %s): the %s of the cycle is carried out with the %s operation of the wrapped transfer" % (render(n)[:70], n.get("l"), m, n.get("n")) for n in wrong]
+                if esc and not wrong:
+                    problems.append("a normal exit is reachable without calling %s() of the wrapped transfer" % base)
+                ck.ob(rule, key, not problems, "; ".join(problems) if problems else "every branch calls %s() of the wrapped transfer (%d call sites)" % (base, len(deleg)),
+                      f.file, (wrong or deleg)[0].get("l"))
+            elif applies:
+                names = sorted({strip(view.value(n["obj"])).get("n", "?") for n in applies})
+                ok = all(base in nm for nm in names) and len(names) == 1
+                ck.ob(rule, key, ok, "applies the matrix member %s%s" % (", ".join(names), "" if ok else ": the member named for `%s` is expected" % base), f.file, applies[0].get("l"))
+            else:
+                ck.incomplete(rule, "%s: neither a call of the wrapped transfer nor an application of a matrix member found" % key)
+
+
+# -------------------------------------------------------------------------------------------------
+# members that cache a value derived from configuration fields
+# -------------------------------------------------------------------------------------------------
+
+def member_writes(view):
+    """[(member name, rhs node or None, statement node)] of the assignments to members of *this in a function
+    (constructor initialisers included)"""
+    out = []
+    for ini in (view.fn.d.get("inits") or []):
+        if ini.get("member"):
+            out.append((ini["member"], ini.get("init"), ini))
+    for n in walk(view.fn.body):
+        if n.get("k") == "Assign" and mgmodel.is_this_member(n["lhs"]):
+            out.append((strip(n["lhs"])["n"], n["rhs"], n))
+        elif n.get("k") == "OpCall" and n.get("op") == "=" and len(n.get("a", [])) == 2 and mgmodel.is_this_member(n["a"][0]):
+            out.append((strip(n["a"][0])["n"], n["a"][1], n))
+        elif n.get("k") == "Un" and n.get("op") in ("++", "--") and mgmodel.is_this_member(n["e"]):
+            out.append((strip(n["e"])["n"], None, n))
+    return out
+
+
+def mentions_member(view, node, names, depth=0):
+    """this-members among `names` that the expression reads, through never-written locals"""
+    found = set()
+    for x in walk(node or {}):
+        if x.get("k") == "Member" and mgmodel.is_this_member(x) and x.get("n") in names:
+            found.add(x["n"])
+        elif x.get("k") == "Ref" and x.get("dk") == "local" and view.is_const_local(x["d"]) and depth < 6:
+            found |= mentions_member(view, view.locals[x["d"]]["init"], names, depth + 1)
+    return found
+
+
+def config_cache_model(facts, cls, inl):
+    """-> (all member functions, setters {function: {field: [write stmt]}}, derived {member: [(function, view, rhs, stmt)]},
+    set of members read by apply() and the functions it reaches).
+    A *configuration field* is a member that a non-constructor member function assigns from one of its parameters
+    (set_levels, set_cycle, ...); a *derived member* is another member assigned, anywhere in the class, from an expression that
+    reads a configuration field."""
+    fns = [f for f in facts.functions if f.tk != "pattern" and f.cls == cls and f.body is not None]
+    views = {id(f): FnView(inl.inline(f)) for f in fns}
+    byname = {}
+    for f in fns:
+        byname.setdefault(f.name, []).append(f)
+    # members read on the way through apply()
+    reach, todo = set(), [f for f in fns if f.name == "apply"]
+    while todo:
+        f = todo.pop()
+        if id(f) in reach:
+            continue
+        reach.add(id(f))
+        for n in walk(f.body):
+            if n.get("k") == "MCall" and (n.get("obj") is None or strip(n["obj"]).get("k") == "This"):
+                todo += byname.get(n.get("n"), [])
+    read = set()
+    for f in fns:
+        if id(f) in reach:
+            written = {id(strip(st["lhs"])) for _, _, st in member_writes(views[id(f)]) if st.get("k") == "Assign" and st.get("op") == "="}
+            for x in walk(f.body):
+                if x.get("k") == "Member" and mgmodel.is_this_member(x) and id(x) not in written:
+                    read.add(x["n"])
+    setters = {}
+    for f in fns:
+        if f.d.get("ctor") or f.d.get("dtor"):
+            continue
+        v = views[id(f)]
+        pds = {p["d"] for p in f.params}
+        for m, rhs, st in member_writes(v):
+            if rhs is not None and any(x.get("k") == "Ref" and x.get("d") in pds for x in walk(v.value(rhs))) or \
+                    (rhs is not None and any(x.get("k") == "Ref" and x.get("dk") == "local" and v.is_const_local(x["d"]) and
+                                              any(y.get("k") == "Ref" and y.get("d") in pds for y in walk(v.locals[x["d"]]["init"])) for x in walk(rhs))):
+                setters.setdefault(id(f), (f, {}))[1].setdefault(m, []).append(st)
+    fields = {m for f, d in setters.values() for m in d}
+    derived = {}
+    for f in fns:
+        v = views[id(f)]
+        for m, rhs, st in member_writes(v):
+            if m in fields or rhs is None:
+                continue
+            src = mentions_member(v, rhs, fields)
+            if src:
+                derived.setdefault(m, []).append((f, v, rhs, st, src))
+    return fns, views, setters, derived, read
+
+
+def check_config_cache(ck, facts, cls, sc, inl):
+    """E8.config-cache: every member that caches a value computed from a configuration field (and that apply() reads) is
+    recomputed, on every path, by every function that modifies that field"""
+    rule = "E8.config-cache"
+    fns, views, setters, derived, read = config_cache_model(facts, cls, inl)
+    if not setters:
+        ck.incomplete(rule, "%s: no member function assigns a member from its parameters (set_levels / set_cycle / set_adapt_cgc vanished?)" % sc)
+        return {}
+    for fid, (f, fields) in sorted(setters.items(), key=lambda kv: kv[1][0].name):
+        v = views[fid]
+        for fld, writes in sorted(fields.items()):
+            key = "%s::%s/%s" % (sc, f.name, fld)
+            deps = sorted(m for m, defs in derived.items() if m in read and any(fld in d[4] for d in defs))
+            if not deps:
+                ck.ob(rule, key, True, "%s is not cached: no member read by apply() is computed from it (the cycle functions read %s itself)" % (fld, fld),
+                      f.file, writes[0].get("l"))
+                continue
+            problems = []
+            for m in deps:
+                own = [st for mm, rhs, st in member_writes(v) if mm == m]
+                stop = {st.get("i") for st in own if st.get("i") is not None}
+                bad = [w for w in writes if w.get("i") is not None and (not stop or v.flow_from(w["i"], stop=stop)[1])]
+                if bad:
+                    d0 = sorted([d for d in derived[m] if fld in d[4]], key=lambda d: bool(d[0].d.get("ctor")))[0]
+                    opaque = [n for n in walk(v.fn.body) if n.get("k") == "MCall" and (n.get("obj") is None or strip(n["obj"]).get("k") == "This") and not n.get("cconst")]
+                    if opaque:
+                        ck.incomplete(rule, "%s: %s is computed from %s in %s() and not reassigned here, but %s() is called, which is not modelled" % (key, m, fld, d0[0].name, opaque[0].get("n")))
+                        problems = None
+                        break
+                    problems.append("%s() changes %s but not %s, which %s() computes from it (`%s = %s`) and which the cycle functions read: after %s() on an initialised object the cycle runs with the stale %s" % (
+                        f.name, fld, m, d0[0].name, m, render(d0[2])[:60], f.name, m))
+            if problems is None:
+                continue
+            ck.ob(rule, key, not problems, "; ".join(problems) if problems else "every member computed from %s (%s) is reassigned on every path after %s changes" % (fld, ", ".join(deps), fld),
+                  f.file, writes[0].get("l"))
+    # what a derived member denotes (for the level analysis): its unique non-constructor definition
+    out = {}
+    for m, defs in derived.items():
+        nc = [d for d in defs if not d[0].d.get("ctor")]
+        forms = {MGView(d[1].fn).level(d[2]) for d in nc}
+        if nc and len(forms) == 1 and None not in forms:
+            out[m] = (nc[0][1], nc[0][2], nc[0][0])       # all (non-constructor) definitions agree on what is cached
+    return out
+
+
+# -------------------------------------------------------------------------------------------------
 
 def run(tier):
     ck = Check("C09", tier)
@@ -1466,6 +1663,8 @@ def run(tier):
     ck.rule("E8.sol-epoch", "a level solution is started afresh (format / solve from rhs) exactly when its rhs is new, and corrections are only added to / prolongated from a solution of the current rhs; breaks on repeated application and in the F/W inner peaks", 36)
     ck.rule("E7.peak-fallback", "_apply_smooth_peak applies the peak smoother if given, otherwise the pre-smoother then the post-smoother, each if given, each only after its presence was tested", 9)
     ck.rule("E2.w-counters", "every subscript of the W-cycle peak-counter array _counters (search, inner reset, increment, sanity check) is an absolute level index within [top_level, last_level], and the reset at cycle entry covers, as symbolic intervals in top_level/last_level, every counter any later statement can touch; breaks on the second W-cycle application with top_level > 0 (stale counters: wrong peak order / sanity abort)", 5)
+    ck.rule("E1.transfer-method-chain", "the transfer methods the cycle calls on a level's transfer operator (rest / rest_send / prol / prol_recv, taken from the events of _apply_rest / _apply_prol) reach the local operation of the same kind in every branch of every transfer class a multigrid can be built on: Global::Transfer calls only rest() resp. prol() of the wrapped transfer, on every normal path (direct branch, muxer parent/child branch, ghost send/recv twins), and LAFEM::Transfer applies the matrix member named for the kind; breaks on processes whose coarse muxer is child and parent (the defect is restricted with the truncation matrix: still convergent, different linear map)", 6)
+    ck.rule("E8.config-cache", "a member of MultiGrid that caches a value computed from a configuration field (a member that a non-constructor member function assigns from its parameters: _top_level, _crs_level, _cycle, _adapt_cgc) and that apply() reads is reassigned, on every path, by every function that modifies that field — or the value is not cached at all; breaks for set_levels()/set_cycle()/... on an initialised object followed by apply() (the cycle runs with the stale cached value)", 4)
     ck.rule("E6.adapt-omega", "adaptive coarse grid correction: MinEnergy w = <def,cor>/<A cor,cor>, MinDefect w = <def,A cor>/<A cor,A cor> with tmp = A*cor of the same level", 2)
 
     extra = ("-DC09_THOROUGH",) if tier == "thorough" else ()
@@ -1476,7 +1675,7 @@ def run(tier):
         ck.incomplete("E14.cycle-shape", "driver TU tu/c09_multigrid.cpp does not compile: %s:%d %s" % (e["file"], e["line"], e["msg"]))
     classes = mg_functions(facts, r"^FEAT::Solver::MultiGrid<")
     inl = norm_c08.Inliner(facts)
-    not_modelled = lambda call, cal: cal.name not in mgmodel.HELPERS and cal.name not in ("apply", "name")
+    not_modelled = lambda call, cal: (cal.name not in mgmodel.HELPERS or len(cal.params) != mgmodel.HELPER_ARITY[cal.name]) and cal.name not in ("apply", "name")
     if not classes:
         ck.incomplete("E14.cycle-shape", "no instantiation of Solver::MultiGrid found")
     need = list(CYCLES) + ["_apply_rest", "_apply_prol", "_apply_smooth_peak", "_apply_smooth_def", "_apply_coarse", "apply"]
@@ -1487,8 +1686,11 @@ def run(tier):
         if missing:
             ck.incomplete("E14.cycle-shape", "%s: anchored functions vanished: %s" % (sc, ", ".join(missing)))
             continue
+        # 0. cached configuration (decides E8.config-cache; tells the level analysis what a caching member denotes)
+        dmap = check_config_cache(ck, facts, cls, sc, inl)
+        derived = {m: (MGView(dv.fn), dexpr) for m, (dv, dexpr, df) in dmap.items()}
         # private helpers that are not part of the event model (extracted blocks) are inlined: body and CFG
-        views = {n: MGView(inl.inline(fns[n], want=not_modelled)) for n in need}
+        views = {n: MGView(inl.inline(fns[n], want=not_modelled), derived=derived) for n in need}
         events = {}
         for n, v in views.items():
             evs = []
@@ -1561,6 +1763,25 @@ def run(tier):
         # 5. freshness typestate (summaries of the helpers composed along the cycle CFGs)
         mgflow.check_flow(ck, sc, views, events, pvars)
 
+    if inl.log:
+        ck.note("helpers inlined into the anchored functions (body + CFG, lib/norm_c08.py): %s" % ", ".join(sorted({"%s <- %s" % (a.rsplit("::", 1)[-1], b) for a, b, l, m in inl.log})))
+    # which transfer methods do the cycle helpers call?
+    used_tm = set()
+    for cls in sorted(classes):
+        for fnm in ("_apply_rest", "_apply_prol"):
+            f0 = classes[cls].get(fnm)
+            if f0 is None:
+                continue
+            v0 = MGView(inl.inline(f0, want=not_modelled))
+            for b in v0.cfg.blocks.values():
+                for e in b["el"]:
+                    ev = classify(v0, e)
+                    if ev and ev["kind"] in TRANSFER_BASE:
+                        used_tm.add(ev["kind"])
+    if used_tm:
+        check_transfer_chain(ck, tier, used_tm)
+    else:
+        ck.incomplete("E1.transfer-method-chain", "no transfer events found in _apply_rest / _apply_prol")
     ck.assume("level objects are well formed: get_system_matrix/filter/transfer/smoothers of level l belong to level l; smoothers and coarse solvers apply their own correction filter (SolverBase contract, property C08)")
     ck.assume("freshness/typestate clauses are decided for processes that own the coarse level (no ghost transfers); on the ghost (MPI) branches only operand roles are decided")
     ck.assume("the defect handed to apply() is already filtered (caller's contract)")
